@@ -22,6 +22,13 @@ Proof.
   destruct (l_pub_num l =? n); [reflexivity|apply IH].
 Qed.
 
+Lemma find_lang_id_find tbl id k :
+  fst (find_lang_id tbl id k) = find (fun l => l_id l =? id) tbl.
+Proof.
+  revert k. induction tbl as [|l t IH]; intros k; cbn [find_lang_id find]; [reflexivity|].
+  destruct (l_id l =? id); [reflexivity|apply IH].
+Qed.
+
 Lemma strcaseeq_ci a b : strcaseeq a b = ci_eqb a b.
 Proof.
   unfold strcaseeq. revert b. induction a as [|x a IH]; intros [|y b]; cbn [map bytes_eqb ci_eqb]; try reflexivity.
@@ -101,18 +108,29 @@ Proof.
     destruct (str_at tb i); [|discriminate]. intros H. apply find_some in H. tauto.
 Qed.
 
-Theorem parse_denote (d : wdoc) (evs : list event) :
-  denote tbl d = Some evs ->
-  parse tbl (S (length (serialize d))) (serialize d) = POk evs.
+(* the caller may force the language (wbxml_parser_set_language): forced = its id, found in the table *)
+Definition forced_ok (forced : N) (flang : option lang) : Prop :=
+  match flang with
+  | None => forced = 0
+  | Some L => forced = l_id L /\ forced <> 0 /\ find (fun x => l_id x =? forced) tbl = Some L
+  end.
+
+Theorem parse_denote_with (forced : N) (flang : option lang) (d : wdoc) (evs : list event) :
+  forced_ok forced flang ->
+  denote_with tbl flang d = Some evs ->
+  parse_with tbl forced 0 (S (length (serialize d))) (serialize d) = POk evs.
 Proof.
-  unfold denote, denote_with. intros H.
+  unfold denote_with. intros Hforced H.
   destruct ((wd_ver d <? 4) && bytes_okb (wd_strtbl d) && u32_okb (blen (wd_strtbl d))
             && match wd_pub d with PubNum n => u32_okb n && negb (n =? 0) | PubIdx i => u32_okb i end) eqn:E0; [|discriminate].
   rewrite !andb_true_iff in E0. destruct E0 as [[[Hver Hb] Hu] Hpub].
   destruct (charset_of d) as [cs|] eqn:Ecs; [|discriminate].
   pose proof (charset_of_ok d cs Ecs) as Hcs.
-  destruct (lang_of_pub tbl (wd_strtbl d) (wd_pub d)) as [l|] eqn:El; [|discriminate].
-  pose proof (Hwv l (lang_of_pub_In _ _ _ El)) as Hwvl.
+  destruct (match flang with Some l => Some l | None => lang_of_pub tbl (wd_strtbl d) (wd_pub d) end) as [l|] eqn:El; [|discriminate].
+  assert (Hin : In l tbl).
+  { destruct flang as [L|]; [|exact (lang_of_pub_In _ _ _ El)].
+    injection El as <-. destruct Hforced as (_ & _ & Hf). apply find_some in Hf. tauto. }
+  pose proof (Hwv l Hin) as Hwvl.
   destruct (wd_root d) as [sw tag attrs hasc items|s|p] eqn:Eroot; try discriminate.
   set (denv := mk_denv l (wd_strtbl d)) in *.
   destruct (den_pis denv (wd_pis_before d) (mk_dstate 0 0 None)) as [[e1 st1]|] eqn:E1; [|discriminate].
@@ -146,7 +164,7 @@ Proof.
     rewrite (pis_loop_ok l (wd_strtbl d) (wd_ver d) cs Hcs (wd_pis_after d) st2 e3 st3 fuel [] E3 eq_refl) by lia.
     reflexivity. }
   (* the header *)
-  unfold parse, parse_with. fold fuel.
+  unfold parse_with. fold fuel.
   assert (Eser : serialize d = wd_ver d :: ser_pub (wd_pub d)
                    ++ (match wd_charset d with Some c => mb_write c | None => [] end)
                    ++ mb_write (blen (wd_strtbl d)) ++ wd_strtbl d ++ body).
@@ -156,33 +174,52 @@ Proof.
                 ++ mb_write (blen (wd_strtbl d)) ++ wd_strtbl d ++ body) in *.
   assert (Hpid : exists pubid pubidx,
              parse_publicid (ser_pub (wd_pub d) ++ rest1) = POk (pubid, pubidx, rest1)
-             /\ check_public_id tbl 0 pubid pubidx
+             /\ check_public_id tbl forced (if forced =? 0 then pubid else get_wbxml_publicid tbl forced) pubidx
                   (match wd_strtbl d with [] => None | _ => Some (padded (wd_strtbl d)) end)
                   (blen (wd_strtbl d)) cs = Some l).
-  { unfold lang_of_pub in El. destruct (wd_pub d) as [n|i]; cbn [ser_pub].
-    - apply andb_prop in Hpub. destruct Hpub as [Hn Hn0].
+  { destruct flang as [L|].
+    - (* forced language: the public identifier is read and not consulted *)
+      injection El as <-. destruct Hforced as (Hid & Hnz & Hfind).
+      assert (Hchk : forall pubid pubidx, check_public_id tbl forced pubid pubidx
+                  (match wd_strtbl d with [] => None | _ => Some (padded (wd_strtbl d)) end)
+                  (blen (wd_strtbl d)) cs = Some L).
+      { intros pubid pubidx. unfold check_public_id. replace (forced =? 0) with false by lia. cbn [andb].
+        pose proof (find_lang_id_find tbl forced 0%nat) as Hf. rewrite Hfind in Hf.
+        destruct (find_lang_id tbl forced 0) as [r1 i1]. cbn [fst] in Hf. subst r1. reflexivity. }
+      destruct (wd_pub d) as [n|i]; cbn [ser_pub].
+      + apply andb_prop in Hpub. destruct Hpub as [Hn Hn0].
+        destruct (mb_write_head_nz n) as (b & r0 & Emb & Hb0); [lia|apply u32_okb_lt; exact Hn|].
+        exists n, NO_INDEX. split; [|apply Hchk].
+        unfold parse_publicid. rewrite Emb. cbn [app]. rewrite Hb0.
+        change (b :: r0 ++ rest1) with ((b :: r0) ++ rest1). rewrite <- Emb.
+        rewrite parse_mb_ok by (apply u32_okb_lt; exact Hn). reflexivity.
+      + exists PUBLIC_ID_UNKNOWN, i. split; [|apply Hchk].
+        unfold parse_publicid. cbn [app N.eqb]. rewrite parse_mb_ok by (apply u32_okb_lt; exact Hpub). reflexivity.
+    - unfold forced_ok in Hforced. subst forced. cbn [N.eqb].
+    unfold lang_of_pub in El. destruct (wd_pub d) as [n|i]; cbn [ser_pub].
+    + apply andb_prop in Hpub. destruct Hpub as [Hn Hn0].
       destruct ((n =? 1) || negb (u32_okb n) || (n =? 0)) eqn:En; [discriminate|].
       destruct (mb_write_head_nz n) as (b & r0 & Emb & Hb0); [lia|apply u32_okb_lt; exact Hn|].
       exists n, NO_INDEX. split.
-      + unfold parse_publicid. rewrite Emb. cbn [app]. rewrite Hb0.
+      * unfold parse_publicid. rewrite Emb. cbn [app]. rewrite Hb0.
         change (b :: r0 ++ rest1) with ((b :: r0) ++ rest1). rewrite <- Emb.
         rewrite parse_mb_ok by (apply u32_okb_lt; exact Hn). reflexivity.
-      + unfold check_public_id. cbn [N.eqb andb].
+      * unfold check_public_id. cbn [N.eqb andb].
         replace (n =? PUBLIC_ID_UNKNOWN) with false by (unfold PUBLIC_ID_UNKNOWN; lia).
         cbn [andb skipn].
         pose proof (find_lang_pub_find tbl n 0%nat) as Hf. rewrite El in Hf.
         destruct (find_lang_pub tbl n 0) as [r2 i2]. cbn [fst] in Hf. subst r2. reflexivity.
-    - destruct (u32_okb i && negb (i =? 4294967295)) eqn:Ei; [|discriminate]. apply andb_prop in Ei. destruct Ei as [Hi Hi1].
+    + destruct (u32_okb i && negb (i =? 4294967295)) eqn:Ei; [|discriminate]. apply andb_prop in Ei. destruct Ei as [Hi Hi1].
       destruct (str_at (wd_strtbl d) i) as [s|] eqn:Es; [|discriminate].
       exists PUBLIC_ID_UNKNOWN, i. split.
-      + unfold parse_publicid. cbn [app N.eqb]. rewrite parse_mb_ok by (apply u32_okb_lt; exact Hi). reflexivity.
-      + unfold check_public_id. cbn [N.eqb andb].
+      * unfold parse_publicid. cbn [app N.eqb]. rewrite parse_mb_ok by (apply u32_okb_lt; exact Hi). reflexivity.
+      * unfold check_public_id. cbn [N.eqb andb].
         replace (i =? NO_INDEX) with false by (unfold NO_INDEX; lia). cbn [andb skipn].
         change (PUBLIC_ID_UNKNOWN =? PUBLIC_ID_UNKNOWN) with true. cbn [andb].
         pose proof (strtbl_ref_ok (mk_lang 0 0 None None None None None None None None) (wd_strtbl d) 0 cs i s Hcs Es) as Hr.
         unfold penv_of in Hr. rewrite Hr. rewrite find_lang_text_find. exact El. }
   destruct Hpid as (pubid & pubidx & Hpp & Hcp).
-  rewrite Hpp. cbn [N.eqb].
+  rewrite Hpp. cbv zeta.
   (* charset field, string table, language, body *)
   destruct (charset_of_cases d cs Ecs) as [(Ev & Ec & ->) | (Ev & c & Ec & Hc)].
   - subst rest1. rewrite Ec, Ev. cbn [app N.eqb].
@@ -201,5 +238,10 @@ Proof.
       rewrite (parse_strtbl_ok (wd_strtbl d) body Hb Hu). rewrite Hcp.
       unfold penv_of in Hbody. rewrite Hbody. reflexivity.
 Qed.
+
+Theorem parse_denote (d : wdoc) (evs : list event) :
+  denote tbl d = Some evs ->
+  parse tbl (S (length (serialize d))) (serialize d) = POk evs.
+Proof. intros H. exact (parse_denote_with 0 None d evs eq_refl H). Qed.
 
 End Doc.
